@@ -150,3 +150,48 @@ func (r *TxnRunner) Server(tree *Node) map[string]interface{} {
 	}
 	return ev
 }
+
+// Monitor: a raw monitor request on a connection of its own, then a commit that
+// concerns the monitored table, then an echo: the server must answer the
+// request (reply or error), survive the commit and keep serving.
+func (r *TxnRunner) Monitor(tree *Node, method string) map[string]interface{} {
+	ev := map[string]interface{}{"ev": "wtxn", "mode": "monitor:" + method, "outcome": "", "alive": true, "msg": ""}
+	c, err := rawrpc.Dial("unix", r.server.Sock)
+	if err != nil {
+		ev["outcome"], ev["alive"], ev["msg"] = "dead", false, "dial: "+err.Error()
+		return ev
+	}
+	defer c.Close()
+	c.OnRequest = func(method string, params json.RawMessage) (interface{}, error) { return []interface{}{}, nil }
+	c.Start()
+	r.n++
+	params := []json.RawMessage{json.RawMessage(`"wdb"`), json.RawMessage(fmt.Sprintf(`"mon%d"`, r.n)), json.RawMessage(tree.Bytes())}
+	if method == "monitor_cond_since" {
+		params = append(params, json.RawMessage(`"00000000-0000-0000-0000-000000000000"`))
+	}
+	_, err = c.Call(method, params, 10*time.Second)
+	switch {
+	case err != nil && strings.HasPrefix(err.Error(), "rpc error"):
+		ev["outcome"] = "error"
+	case err != nil:
+		ev["outcome"], ev["msg"] = "dead", short(err.Error())
+	default:
+		ev["outcome"] = "results"
+	}
+	// a commit every monitor of table T hears about: insert, modify, delete
+	name := fmt.Sprintf("m%d", r.n)
+	for _, ops := range []string{
+		`{"op":"insert","table":"T","row":{"c1":7,"c4":1,"c5":"` + name + `"}}`,
+		`{"op":"update","table":"T","where":[["c5","==","` + name + `"]],"row":{"c1":8,"c2":["map",[["k","v"]]]}}`,
+		`{"op":"delete","table":"T","where":[["c5","==","` + name + `"]]}`} {
+		if _, err := r.server.Tx.Call("transact", []json.RawMessage{json.RawMessage(`"wdb"`), json.RawMessage(ops)}, 10*time.Second); err != nil {
+			ev["alive"] = false
+			ev["msg"] = short(fmt.Sprintf("%v; transact after the monitor request: %v", ev["msg"], err))
+		}
+	}
+	if _, err := r.server.Tx.Call("echo", []interface{}{"x"}, 5*time.Second); err != nil {
+		ev["alive"] = false
+		ev["msg"] = short(fmt.Sprintf("%v; echo afterwards: %v", ev["msg"], err))
+	}
+	return ev
+}
